@@ -1,4 +1,5 @@
 """C16 — a debugger session always makes progress."""
+import re
 from ..facts import callee_of, short, sp_file_line, expr_str, expr_walk, op_local, place_is_local
 from .. import kit, dbg
 
@@ -193,6 +194,60 @@ def run(ctx):
     ctx.note("end of input -> quit -> detach is C09.R5")
 
     from ..panics import run_ledger
+    # ------------------------------------------------------------------ R5
+    # a loop that pulls from an iterator must notice when the iterator is exhausted: comparing `next()` with one particular `Some(x)` and
+    # looping while they differ never ends once the iterator has run dry (an escape sequence without its final byte, a script ending early)
+    ctx.rule("C16.R5", "loops over an iterator stop when it is exhausted", floor=5)
+    scope5 = {n for n in ctx.cg.reachable([rl.name, pz.name]) | {rl.name, pz.name} if n in prog.fns and prog.fns[n].bkind == "fn" and n.startswith("lace::")}
+    scope5 |= {n for n in prog.fns if prog.fns[n].bkind == "fn" and n.startswith("lace::output::")}
+    nloops5 = 0
+    for n in sorted(scope5):
+        f = prog.fns[n]
+        lps5 = kit.loops(f)
+        if not lps5:
+            continue
+        for b, t, c in f.calls():
+            if not (c and c.endswith("::next") and "terator" in c):
+                continue
+            inl = [h for h, (body, l) in lps5.items() if b in body]
+            if not inl:
+                continue
+            nloops5 += 1
+            ctx.instance(1)
+            r = t["dest"]["l"] if not t["dest"].get("pr") else None
+            observed, only_eq = False, []
+            if r is None:
+                observed = True
+            else:
+                aliases = {r}
+                for bb in sorted(f.live_blocks()):
+                    for s_ in f.stmts(bb):
+                        if s_["k"] == "assign" and not s_["p"].get("pr"):
+                            rr = s_["r"]
+                            src = rr.get("p") if rr["k"] in ("ref", "rawptr") else (rr.get("a", {}).get("p") if rr["k"] == "use" else None)
+                            if src is not None and src["l"] in aliases and not [e_ for e_ in src.get("pr", []) if isinstance(e_, dict)]:
+                                aliases.add(s_["p"]["l"])
+                        if s_["k"] == "assign" and s_["r"]["k"] == "discr" and s_["r"]["p"]["l"] in aliases:
+                            observed = True
+                        if s_["k"] == "assign" and s_["r"]["k"] == "use" and s_["r"]["a"].get("p", {}).get("l") in aliases and any(isinstance(e_, dict) and "dc" in e_ for e_ in s_["r"]["a"]["p"].get("pr", [])):
+                            observed = True
+                for bb, tt, cc in f.calls():
+                    if bb == b:
+                        continue
+                    if any(a.get("p", {}).get("l") in aliases for a in tt["args"] if a.get("k") in ("copy", "move")):
+                        if cc and re.search(r"cmp::PartialEq(<.*>)?>?::(eq|ne)$", cc):
+                            only_eq.append(tt)
+                        else:
+                            observed = True
+            ok = observed or not only_eq
+            ctx.oblig(ok, None)
+            if not ok:
+                ctx.violation("loop-ignores-exhaustion|%s" % short(n), sp_file_line(only_eq[0].get("sp")),
+                              "a loop in `%s` only compares `next()` with a particular value and never looks at whether the iterator is exhausted: once it has run "
+                              "dry `None != Some(..)` holds forever and the loop spins (an unterminated escape sequence in echoed text hangs the session)" % short(n))
+    ctx.note("%d iterator pulls inside loops examined in %d functions" % (nloops5, len(scope5)))
+    ctx.finish_rule()
+
     # the decrement of the `step into` counter: C10.R4 evaluates the stepper's transition for every counter value and shows that no
     # counter reachable from `step into N` (N >= 1, C10.R3) lets the decrement underflow - whatever the counter's representation
     status_fields = {f_["name"] for v_ in prog.adt("lace::debugger::Status")["variants"] for f_ in v_.get("fields", []) if "16" in str(f_.get("ty", "u16"))}
